@@ -95,6 +95,7 @@ class Repo:
         if not os.path.isdir(self.root):
             raise AnchorError(f'source root {self.root} not found')
         self.mods = {}
+        self.equiv = {}
         self.consulted = set()
         present = sorted(f[:-3] for f in os.listdir(self.root) if f.endswith('.py'))
         self.present = present
@@ -105,8 +106,26 @@ class Repo:
             if not os.path.isfile(path):
                 raise AnchorError(f'anchor vanished: module {name} ({path})')
             self.mods[name] = Module(name, path)
+            self._absorb(name)
         self.consulted.add(name)
         return self.mods[name]
+
+    def _absorb(self, name):
+        """Equivalence modulo refactoring: see kvstatic/equiv.py. Functions whose normal form equals the reference
+        function's normal form are analysed in reference form (KV_NO_EQUIV=1 switches this off)."""
+        if os.environ.get('KV_NO_EQUIV'):
+            return
+        from .equiv import REFERENCE_ROOT, absorb
+        rp = os.path.join(REFERENCE_ROOT, name + '.py')
+        m = self.mods[name]
+        if not os.path.isfile(rp) or os.path.abspath(rp) == os.path.abspath(m.path):
+            return
+        ref = Module(name, rp)
+        if ref.digest == m.digest:
+            return
+        res = absorb(m, ref)
+        if res['equivalent'] or res['absorbed_helpers'] or res['directed']:
+            self.equiv[name] = {k: res[k] for k in ('equivalent', 'directed', 'absorbed_helpers')}
 
     def all_mods(self):
         return [self.mod(n) for n in self.present]
@@ -285,6 +304,10 @@ class Report:
                 out.append(f'      witness: {short(v.witness, 400)}')
             out.append(f'VIOLATION property={self.prop} replay={path}')
         status = 1 if unlisted else 0
+        for mname, e in sorted(self.repo.equiv.items()):
+            out.append(f'  note: {mname}: analysed in reference form (equal normal forms): {", ".join(e["equivalent"]) or "-"}; '
+                       f'normalised towards the reference: {", ".join(e["directed"]) or "-"}'
+                       + (f'; helpers absorbed: {", ".join(e["absorbed_helpers"])}' if e['absorbed_helpers'] else ''))
         out.append(f'[{self.prop}] obligations={self.obligations} discharged={self.discharged} '
                    f'instances={len(self.instances)} violations={len(unlisted)} known={len(listed)} '
                    f'wall={wall:.2f}s -> exit {status}')
@@ -313,6 +336,7 @@ class Report:
                 'analysed': self.analysed[:200],
                 'source_root': self.repo.root,
                 'source_digests': self.repo.digests(),
+                'equivalent_modulo_normal_form': self.repo.equiv,
                 'trusted_base': self.trusted,
                 'known_findings_reported': known,
                 **self.extra,
